@@ -124,6 +124,10 @@ def check(case):
         for bk in only_bk:
             built = {}
             ok = True
+            if bk == "c" and ref.c_unsafe():
+                # an integer-literal quotient in the text: the C values are wrong already for the full model (listed finding of C02)
+                cm.note(res, "skipped:c:integer-quotient-territory(C02)")
+                continue
             if bk != "numpy":  # the back end must work for the full model, otherwise it is C02/C03's business
                 try:
                     with be.build(ode, bk, SCHEMES) as fb:
